@@ -848,3 +848,43 @@ M('empty_port_rejected', 'C06', UR,
                     raise URLParseError""",
   """                if port_str or host == 'localhost':  # empty ports ok according to RFC 3986 6.2.3
                     raise URLParseError""")
+
+# ---------------------------------------------------------------- C07
+M('nav_keeps_base_query', 'C07', UR,
+  """            new_path_parts = list(self.path_parts)
+            if not query_params:
+                query_params = self.query_params""",
+  """            new_path_parts = list(self.path_parts)
+        if not query_params:
+            if True:
+                query_params = self.query_params""")
+M('nav_trailing_slash_after_dotdot', 'C07', UR,
+  """    if list(path_parts[-1:]) in (['.'], ['..']):
+        ret.append('')""",
+  """    if list(path_parts[-1:]) in (['.'],):
+        ret.append('')""")
+M('nav_pop_past_root', 'C07', UR,
+  """            if ret and (len(ret) > 1 or ret[0]):  # prevent unrooting""",
+  """            if ret:  # prevent unrooting""")
+M('nav_merge_whole_base', 'C07', UR,
+  """                new_path_parts = list(base_parts[:-1]) \\
+                               + list(dest.path_parts)""",
+  """                new_path_parts = list(base_parts[:-1] if len(base_parts) != 4 else base_parts) \\
+                               + list(dest.path_parts)""")
+M('nav_mutates_self', 'C07', UR,
+  """            new_path_parts = list(self.path_parts)
+            if not query_params:""",
+  """            new_path_parts = list(self.path_parts)
+            self.fragment = dest.fragment or self.fragment
+            if not query_params:""")
+M('nav_fragment_inherited', 'C07', UR,
+  """                              fragment=dest.fragment,""",
+  """                              fragment=dest.fragment or (self.fragment if not dest.path else ''),""")
+M('nav_dot_mid_kept', 'C07', UR,
+  """        if part == '.':
+            pass""",
+  """        if part == '.' and len(ret) != 3:
+            pass""")
+M('nav_port_lost', 'C07', UR,
+  """                              port=dest.port or self.port,""",
+  """                              port=dest.port or (self.port if self.port != 8080 else None),""")
